@@ -12,7 +12,10 @@
 (***************************************************************************)
 EXTENDS Naturals, Sequences, FiniteSets, TLC
 
-CONSTANTS Commits, BuildKeys, States, CacheSize, MaxSteps
+CONSTANTS Commits, BuildKeys, States, CacheSize, MaxSteps,
+          PollAllKeys,   \* TRUE = the GitHub client: a poll that misses fetches the combined status of the commit
+                         \* and stores the status of EVERY key in the cache (get_commit_status)
+          GuardedStore   \* TRUE = that store never overwrites a cached SUCCESSFUL (repaired code)
 
 VARIABLES host, cache, seen, answer, steps
 vars == <<host, cache, seen, answer, steps>>
@@ -61,10 +64,25 @@ Webhook(c, k, s) ==
   /\ seen' = Keep(IF s = "SUCCESSFUL" THEN seen \cup {<<c, k>>} ELSE seen, cache')
   /\ answer' = [a |-> "", must |-> ""] /\ steps' = steps + 1
   /\ UNCHANGED host
+\* the whole cache after a poll
+StoreOther(q, c, s) == IF GuardedStore /\ InLru(q, c) /\ StateIn(q, c) = "SUCCESSFUL" THEN q ELSE Put(q, c, s)
+PollAll(ch, h, c, k) ==
+  LET q1 == Touch(ch[k], c)
+      green == InLru(q1, c) /\ StateIn(q1, c) = "SUCCESSFUL"
+  IN IF green \/ ~ PollAllKeys THEN [ch EXCEPT ![k] = PollCache(ch[k], h, c, k)]
+     ELSE [kk \in BuildKeys |->
+             IF kk = k THEN PollCache(ch[k], h, c, k)
+             ELSE IF h[<<c, kk>>] = "NONE" THEN ch[kk] ELSE StoreOther(ch[kk], c, h[<<c, kk>>])]
+\* what a poll lets Bert-E see green: the answer itself and, for the GitHub client, every other key of the
+\* combined status it fetched
+PollSees(ch, h, c, k) ==
+  (IF PollAnswer(ch[k], h, c, k) = "SUCCESSFUL" THEN {<<c, k>>} ELSE {})
+  \cup (IF PollAllKeys /\ ~ (InLru(ch[k], c) /\ StateIn(ch[k], c) = "SUCCESSFUL")
+        THEN {<<c, kk>> : kk \in {x \in BuildKeys : h[<<c, x>>] = "SUCCESSFUL"}} ELSE {})
 Poll(c, k) ==
   /\ answer' = [a |-> PollAnswer(cache[k], host, c, k), must |-> MustAnswer(cache[k], host, seen, c, k)]
-  /\ cache' = [cache EXCEPT ![k] = PollCache(cache[k], host, c, k)]
-  /\ seen' = Keep(IF PollAnswer(cache[k], host, c, k) = "SUCCESSFUL" THEN seen \cup {<<c, k>>} ELSE seen, cache')
+  /\ cache' = PollAll(cache, host, c, k)
+  /\ seen' = Keep(seen \cup PollSees(cache, host, c, k), cache')
   /\ steps' = steps + 1
   /\ UNCHANGED host
 Next == /\ steps < MaxSteps
